@@ -713,13 +713,13 @@ def check_operators(prog, rep):
         return
     i = dump(loop[0].target)
     # copies: Xp = np.copy(X)
-    Xp = [k for k, v in defs.items() if isinstance(v, ast.Call) and dump(v.func) in ("np.copy", "numpy.copy") or (isinstance(v, ast.Call) and isinstance(v.func, ast.Attribute) and v.func.attr == "copy")]
+    Xp = [k for k, v in defs.items() if isinstance(v, ast.Call) and dump(v.func) == "numpy.copy" or (isinstance(v, ast.Call) and isinstance(v.func, ast.Attribute) and v.func.attr == "copy")]
     if not Xp:
         rep.violate("R5-problem", f.qualname, "parents are edited in place (no copy of X)", where(f), "Xp = np.copy(X)", "absent")
         return
     Xp = Xp[0]
-    m1 = "~np.isin(%s[0, %s, :], %s[1, %s, :])" % (Xp, i, Xp, i)
-    m2 = "~np.isin(%s[1, %s, :], %s[0, %s, :])" % (Xp, i, Xp, i)
+    m1 = "~numpy.isin(%s[0, %s, :], %s[1, %s, :])" % (Xp, i, Xp, i)
+    m2 = "~numpy.isin(%s[1, %s, :], %s[0, %s, :])" % (Xp, i, Xp, i)
 
     def canon_mask(v):
         """text of a complement-of-membership mask with local row views substituted and `np.isin(a, b, invert=True)` read as `~np.isin(a, b)`"""
@@ -731,11 +731,11 @@ def check_operators(prog, rep):
                     d = defs.get(n.id)
                     return copy.deepcopy(d) if (isinstance(n.ctx, ast.Load) and isinstance(d, ast.Subscript) and n.id != Xp) else n
             v = Sub().visit(v)
-        if isinstance(v, ast.Call) and dump(v.func) in ("np.isin", "numpy.isin"):
+        if isinstance(v, ast.Call) and dump(v.func) == "numpy.isin":
             kw = {k.arg: k.value for k in v.keywords}
             if isinstance(kw.get("invert"), ast.Constant) and kw["invert"].value is True and len(v.args) == 2:
-                return "~np.isin(%s, %s)" % (dump(v.args[0]), dump(v.args[1]))
-        return dump(v).replace("numpy.isin", "np.isin")
+                return "~numpy.isin(%s, %s)" % (dump(v.args[0]), dump(v.args[1]))
+        return dump(v)
     masks = {k: canon_mask(v) for k, v in defs.items() if "isin" in dump(v)}
     mab = [k for k, v in masks.items() if v == m1]
     mba = [k for k, v in masks.items() if v == m2]
@@ -778,7 +778,7 @@ def check_operators(prog, rep):
     f = prog.own_method(c, "_do")
     rep.saw(f)
     txt = {dump(n.targets[0]): dump(n.value) for n in walk_no_nested(f.node) if isinstance(n, ast.Assign) and len(n.targets) == 1}
-    Xm = [k for k, v in txt.items() if v in ("X.copy()", "np.copy(X)", "numpy.copy(X)")]
+    Xm = [k for k, v in txt.items() if v in ("X.copy()", "numpy.copy(X)")]
     if not Xm:
         rep.violate("R5-problem", f.qualname, "individuals are mutated in place (no copy of X)", where(f), "Xm = X.copy()", "absent")
     else:
@@ -786,8 +786,8 @@ def check_operators(prog, rep):
         loop = [s for s in body_nodoc(f.node) if isinstance(s, ast.For)]
         i = dump(loop[0].target) if loop else "i"
         # roles by definition, not by name: mab = members outside the set space, mba = set-space elements not in the individual
-        mab = [k for k, v in txt.items() if v == "~np.isin(%s[%s, :], self.setspace)" % (Xm, i)]
-        mba = [k for k, v in txt.items() if v == "~np.isin(self.setspace, %s[%s, :])" % (Xm, i)]
+        mab = [k for k, v in txt.items() if v == "~numpy.isin(%s[%s, :], self.setspace)" % (Xm, i)]
+        mba = [k for k, v in txt.items() if v == "~numpy.isin(self.setspace, %s[%s, :])" % (Xm, i)]
         okm = False
         if len(mab) == 1 and len(mba) == 1:
             bpn = [k for k, v in txt.items() if v == "self.setspace[%s]" % mba[0]]
